@@ -207,8 +207,10 @@ pub fn gen(ctx: &mut Ctx, o: &Opts) -> Option<SCase> {
         return ctx.reject();
     }
     let update = o.allow_update && ctx.flag();
-    if update && !cp_named {
-        return ctx.reject(); // struct update syntax needs a named counterpart (and a named deriving struct for From)
+    // struct update syntax needs a named literal: the deriving struct for From (whatever the counterpart looks like - seed
+    // C08-06), the counterpart for Into (a positional counterpart gets the update on its From instructions only)
+    if update && !cp_named && matches!(form, CpForm::BareTuple | CpForm::AsUnit) {
+        return ctx.reject();
     }
     if update && shape != Shape::Named {
         return ctx.reject();
@@ -388,8 +390,8 @@ impl SCase {
         }
         let mut it = Item::new_struct(name, self.shape, fields);
         let upd_from = if self.update { "| ..sbase()" } else { "" };
-        let upd_into = if self.update { "| ..tbase()" } else { "" };
-        let upd_into_f = if self.update { "| ..tfbase()" } else { "" };
+        let upd_into = if self.update && self.cp_named { "| ..tbase()" } else { "" };
+        let upd_into_f = if self.update && self.cp_named { "| ..tfbase()" } else { "" };
         let h = self.hint();
         let push_set = |it: &mut Item, fallible: bool, cp: &str| {
             let (from, into, ex, err) = if fallible { ("try_from", "try_into", "try_into_existing", ", Er") } else { ("from", "into", "into_existing", "") };
